@@ -93,6 +93,17 @@ let wire_op (t : string list) : string =
   | [] -> failwith "empty op"
 
 (* ---------- stream lowpan (two interfaces) ---------- *)
+(* what a raw socket shows for a datagram that starts with a hop-by-hop header: smoltcp hands the
+   upper-layer part to the raw socket of the upper protocol together with the unchanged IPv6 header *)
+let canon_rx (d : z list) : z list =
+  let a = Array.of_list d in
+  if Array.length a >= 48 && iz a.(6) = 0 then begin
+    let l = (iz a.(41) + 1) * 8 in
+    if Array.length a >= 40 + l then
+      Array.to_list (Array.sub a 0 40) @ Array.to_list (Array.sub a (40 + l) (Array.length a - 40 - l))
+    else d
+  end else d
+
 let ll_bytes (l : iphc_ll option) : z list =
   match l with Some (LlShort a) -> a | Some (LlExtended a) -> a | _ -> []
 
@@ -132,6 +143,7 @@ let e2e_case (cfg : (string * string) list) (ops : string list) : unit =
   let mcast = String.length dst > 2 && String.sub dst 0 2 = "m:" in
   let bcast = Some (LlShort [zi 255; zi 255]) in
   let a = { tag = 0; slots = lpf_slots_new; ll = lla } and b = { tag = 0; slots = lpf_slots_new; ll = llb } in
+  let ctx = match cfg_get cfg "ctx" "-" with "-" -> [] | c -> List.map bytes_of_hex (String.split_on_char ',' c) in
   let now = ref (if mcast then 0 else 10) in
   let timeout = 60000 in
   (* one datagram from [snd] to [rcv]: print frames, deliver per schedule, print deliveries *)
@@ -172,7 +184,7 @@ let e2e_case (cfg : (string * string) list) (ops : string list) : unit =
     List.iter (fun pls ->
       let arr = Array.of_list pls in
       List.iter (fun j ->
-        match lp_process_sixlowpan [] (zi !now) (zi timeout) (ll_bytes snd.ll) (ll_bytes ll_dst) snd.ll ll_dst arr.(j) rcv.slots with
+        match lp_process_sixlowpan ctx (zi !now) (zi timeout) (ll_bytes snd.ll) (ll_bytes ll_dst) snd.ll ll_dst arr.(j) rcv.slots with
         | Ok (ss, d) ->
             rcv.slots <- ss;
             (match d with Some x -> incr got; Printf.printf "rx %s %s\n" dir (hex_of_bytes x) | None -> ())
@@ -193,6 +205,17 @@ let e2e_case (cfg : (string * string) list) (ops : string list) : unit =
         let rr = split_refs (kv t "rref") in
         (* the receiver only answers what it received *)
         if rr <> [] && got > 0 then ignore (send "ba" b a lla rr "io");
+        now := !now + 1
+    | "recv" :: _ ->
+        let ll_dst = if kv t "bc" = "1" then bcast else llb in
+        b.slots <- lpf_remove_expired (zi !now) b.slots;
+        (match lp_process_sixlowpan ctx (zi !now) (zi timeout) (ll_bytes lla) (ll_bytes ll_dst) lla ll_dst
+                 (bytes_of_hex (kv t "pl")) b.slots with
+         | Ok (ss, d) ->
+             b.slots <- ss;
+             (match d with Some x -> Printf.printf "rx ab %s\n" (hex_of_bytes (canon_rx x)) | None -> Printf.printf "rx ab -\n")
+         | Err _ -> Printf.printf "rx ab -\n"
+         | Panic -> Printf.printf "rx ab MODEL-PANIC\n");
         now := !now + 1
     | _ -> failwith ("unknown e2e op " ^ op)) ops
 
